@@ -50,7 +50,7 @@ type c03Uni struct {
 	cases   []c03Case
 }
 
-func c03Gen(r *rand.Rand, k int) (fo string, client string, want string, unions []c03Uni) {
+func c03Gen(r *rand.Rand, k int) (fo string, client string, want string, unions []c03Uni, records []c03Rec) {
 	var foB, cl, exp strings.Builder
 	foB.WriteString(`package main
 
@@ -313,7 +313,7 @@ let xTwoPiped () =
 	exp.WriteString("ExtAdd(1,2) ExtAdd(10,5) ExtAdd(4,3) ExtShow(7) ExtShow(s) 99\nExtProc(p)\n")
 	exp.WriteString("1/w/true 1/x/true 2/y/false 3/z/true\n")
 	exp.WriteString("42 a+b+c p+q+r 105\n")
-	return foB.String(), cl.String(), exp.String(), unions
+	return foB.String(), cl.String(), exp.String(), unions, recs
 }
 
 const c03Impl = `package main
@@ -405,11 +405,56 @@ func vC03(seed int64, count int, extra []string) {
 	os.WriteFile(filepath.Join(workdir, "impl.go"), []byte(c03Impl), 0o644)
 	r := rand.New(rand.NewSource(seed))
 	for i := 0; i < count; i++ {
-		fo, client, want, unions := c03Gen(r, i)
+		fo, client, want, unions, records := c03Gen(r, i)
 		goSrc, err := vTranspilePkg(fo)
 		if err != "" {
 			vViolation(map[string]any{"kind": "fc rejected valid declarations", "error": err, "program": fo})
 			continue
+		}
+		// model correspondence: the struct declared for every record
+		for _, rc := range records {
+			tps := "()"
+			if rc.generic {
+				tps = "(T)"
+			}
+			var fs []string
+			for j := range rc.fields {
+				fs = append(fs, vsx(rc.fields[j], vsx("ty", vsxStr(rc.tys[j].goT))))
+			}
+			found := "(missing)"
+			fset := token.NewFileSet()
+			if f, err := parser.ParseFile(fset, "gen.go", goSrc, 0); err == nil {
+				for _, d := range f.Decls {
+					gd, ok := d.(*ast.GenDecl)
+					if !ok {
+						continue
+					}
+					for _, sp := range gd.Specs {
+						ts, ok := sp.(*ast.TypeSpec)
+						if !ok || ts.Name.Name != rc.name {
+							continue
+						}
+						if st, ok := ts.Type.(*ast.StructType); ok {
+							parts := []string{"struct", ts.Name.Name}
+							ntp := 0
+							if ts.TypeParams != nil {
+								for _, fl := range ts.TypeParams.List {
+									ntp += len(fl.Names)
+								}
+							}
+							parts = append(parts, strconv.Itoa(ntp))
+							for _, fl := range st.Fields.List {
+								for _, n := range fl.Names {
+									parts = append(parts, vsx(n.Name, vsxStr(goSrc[fset.Position(fl.Type.Pos()).Offset:fset.Position(fl.Type.End()).Offset])))
+								}
+							}
+							found = vsx(parts...)
+						}
+					}
+				}
+			}
+			vEmitIO(vsx("c03.record", rc.name, tps, vsx(fs...)), found)
+			vstat("record-decls")
 		}
 		// model correspondence: declarations of every union
 		for _, u := range unions {
